@@ -18,6 +18,13 @@ def cases_for(tier):
         for tm in timers:
             for i in (idles if tier == "thorough" or tm in (-1, 20, -2, -4) else [0, 3, 5, 6]):
                 out.append("%d %d %d" % (t, tm, i))
+    # a wake-up that is already pending when the dispatch starts (issued on the loop's thread just before it, or from a callback of the
+    # previous dispatch): the dispatch must not block, whatever its timeout
+    for t in (400, -1, -2):
+        for tm in (-1, 400, -2):
+            for i in ((0, 1, 5) if tier == "thorough" else (0,)):
+                for pw in (1, 2):
+                    out.append("%d %d %d %d" % (t, tm, i, pw))
     return out
 
 
@@ -28,7 +35,10 @@ def run_impl_one(case):
 
 def judge(case, impl, eff_ms, limit_is_timer):
     """returns (hard failures, soft = upper-bound miss that may be scheduler noise)"""
-    t, tm, idle = (int(x) for x in case.split())
+    t, tm, idle = (int(x) for x in case.split()[:3])
+    prewake = int(case.split()[3]) if len(case.split()) > 3 else 0
+    if prewake:
+        eff_ms, limit_is_timer = 0, False        # a pending wake-up makes the wait return at once (C11_pending_wakeup_not_lost)
     ws = impl.split()
     if len(ws) != 4:
         return ["no measurement: %s" % impl], False
@@ -38,7 +48,7 @@ def judge(case, impl, eff_ms, limit_is_timer):
         fails.append("dispatch returned an error")
     if other:
         fails.append("spurious: an idle source's callback ran %d times" % other)
-    if t < 0 and (eff_ms < 0 or eff_ms > WAKE_MS):
+    if t < 0 and not prewake and (eff_ms < 0 or eff_ms > WAKE_MS):
         eff_ms, limit_is_timer = WAKE_MS, False      # the wakeup() from the other thread ends the wait first
     want_us = eff_ms * 1000
     if el + SLACK_LOW_US < want_us:
@@ -122,7 +132,7 @@ def main(tier, seed):
         chk.cov.update({"evaluations": 0, "distinct_nontrivial": 0})
         return chk.finish()
     cases = cases_for(tier)
-    model, mlog = vlib.run_model(["timing"], cases)
+    model, mlog = vlib.run_model(["timing"], [" ".join(c.split()[:3]) for c in cases])
     with ThreadPoolExecutor(max_workers=6) as ex:
         impl = list(ex.map(run_impl_one, cases))
     bad, retried = [], 0
@@ -136,7 +146,10 @@ def main(tier, seed):
             retried += 1
             i = run_impl_one(c)
             fails, soft = judge(c, i, eff, lim)
-        if soft:
+        if soft and len(c.split()) > 3:
+            fails.append("oversleeping: a wake-up was pending when the dispatch started (%s), yet it took %s us (4 measurements): the wake-up was lost"
+                         % ("wakeup() called just before it" if c.split()[3] == "1" else "wakeup() called from a callback of the previous dispatch", i.split()[0]))
+        elif soft:
             fails.append("oversleeping: dispatch took %s us, the limit is %d ms (4 measurements)" % (i.split()[0], WAKE_MS if (eff < 0 or (c.startswith("-1") and eff > WAKE_MS)) else eff))
         rows.append((c, i, m))
         if fails:
@@ -179,7 +192,7 @@ def main(tier, seed):
         return chk.finish()
     if bad:
         c, i, m, fails = bad[0]
-        chk.violation("oracle", "C12 violated on the real code: %s\ncase (timeout_ms timer_ms idle_kind): %s\nmeasured (elapsed_us fired other ok): %s\nmodel (eff_ms limit_is_timer): %s\n(%d failing cases)"
+        chk.violation("oracle", "C12 violated on the real code: %s\ncase (timeout_ms timer_ms idle_kind [pending_wakeup]): %s\nmeasured (elapsed_us fired other ok): %s\nmodel (eff_ms limit_is_timer): %s\n(%d failing cases)"
                       % (fails[0], c, i, m, len(bad)))
     elif not st["proof"]["ok"] or mlog:
         chk.violation("broken", "C12 is no longer shown to hold: %s %s\nall %d measured cases were within bounds: no failing input found" %
@@ -200,7 +213,8 @@ def replay(path):
         import oracles
         import seqcheck
         return seqcheck.replay("C12", path, oracles.oracle_for(["C12"]))
-    cases = [l.strip() for l in open(path) if len(l.split()) == 3 and l.split()[0].lstrip("-").isdigit()]
+    cases = [l.strip() for l in open(path) if len(l.split()) in (3, 4) and all(w.lstrip("-").isdigit() for w in l.split())]
+    cases += [l.split(":", 1)[1].strip() for l in open(path) if l.startswith("case (timeout_ms timer_ms idle_kind")]
     cases2 = [l.split(":", 1)[1].strip() for l in open(path) if l.startswith("case (timeout_ms | timer history):")]
     cases2 += [l.strip() for l in open(path) if "|" in l and l.split("|")[0].strip().isdigit() and not l.startswith("case")]
     vlib.build_harness()
@@ -216,11 +230,13 @@ def replay(path):
                 rc = 1
         if not cases:
             return rc
-    model, _ = vlib.run_model(["timing"], cases)
+    model, _ = vlib.run_model(["timing"], [" ".join(c.split()[:3]) for c in cases])
     rc = 0
     for c, m in zip(cases, model):
         i = run_impl_one(c)
         f, soft = judge(c, i, int(m.split()[0]), m.split()[1] == "1")
+        if soft and len(c.split()) > 3:
+            f = f + ["oversleeping although a wake-up was pending"]
         print(c, "| impl:", i, "| model:", m, "|", f or "ok", "(slow)" if soft else "")
         if f:
             rc = 1
